@@ -1,3 +1,9 @@
 //@ ret r
 //@ contract
-        ensures true, // @handler_called_only_after_successful_extraction_see_precondition_of_HttpHandlerFunc
+        ensures
+            // the handler runs only on successfully extracted arguments (precondition of HttpHandlerFunc::handle_request,
+            // proved at the call) ...
+            extraction::<FuncParams, Context>(rqctx, request) is Err ==> r is Err,      // @a_refused_request_is_answered_with_an_error_without_the_handler
+            // ... and what it returns -- response or error -- is passed on unaltered
+            extraction::<FuncParams, Context>(rqctx, request) is Ok ==>
+                r == self.handler.outcome(rqctx, extraction::<FuncParams, Context>(rqctx, request)->Ok_0),   // @the_handlers_own_outcome_is_passed_on_unaltered
